@@ -32,11 +32,11 @@ sys.dont_write_bytecode = True
 
 from bounded import common  # noqa: E402
 
-CASE_TIMEOUT_S = int(os.environ.get('VERIF_CASE_TIMEOUT', '20'))
+CASE_TIMEOUT_S = int(os.environ.get('VERIF_CASE_TIMEOUT', '15'))
 MAX_FAILS_KEPT = 40
 
 
-class _Hang(Exception):
+class _Hang(BaseException):   # not an Exception: it must pass through `except Exception` in the code under check
     pass
 
 
@@ -46,13 +46,14 @@ def _alarm(signum, frame):
 
 def _run_one(mod, case):
     signal.signal(signal.SIGALRM, _alarm)
-    signal.alarm(CASE_TIMEOUT_S)
+    # repeating timer: code under check (or a handler of the case) may swallow the first alarm and loop on
+    signal.setitimer(signal.ITIMER_REAL, CASE_TIMEOUT_S, 1.0)
     try:
         return mod.run_case(case)
     except _Hang:
         return common.fail('hang', detail=f'case did not finish in {CASE_TIMEOUT_S}s')
     finally:
-        signal.alarm(0)
+        signal.setitimer(signal.ITIMER_REAL, 0)
 
 
 def _label(mod, case, failure):
@@ -80,6 +81,7 @@ def _worker(args):
     nfails = 0
     samples = []
     truncated = False
+    hangs = 0
     t0 = time.time()
     for i, case in enumerate(mod.gen_cases(tier, seed)):
         if i % jobs != rank:
@@ -90,10 +92,23 @@ def _worker(args):
         evals += 1
         if nontrivial(case):
             seen.add(hashlib.blake2b(repr(case).encode('utf8', 'backslashreplace'), digest_size=8).digest())
+        t_case = time.time()
         try:
             failure = _run_one(mod, case)
         except Exception:
             return {'crash': traceback.format_exc(), 'case': common.jsonable(case)}
+        if time.time() - t_case >= CASE_TIMEOUT_S and (failure is None or failure.get('clause') != 'hang'):
+            # the alarm fired but was swallowed somewhere (e.g. by an `except BaseException` of the case's handler)
+            failure = common.fail('hang', detail=f'case needed {time.time() - t_case:.0f}s (limit {CASE_TIMEOUT_S}s)',
+                                  reported_by_case=failure)
+        if failure is not None and failure.get('clause') == 'hang':
+            hangs += 1
+            if hangs >= 2:
+                # a second hanging case: stop this worker (every further one would cost the full per-case time limit)
+                nfails += 1
+                fails.append({'case': common.jsonable(case), 'failure': failure, 'findings': _label(mod, case, failure)})
+                truncated = True
+                break
         if failure is not None:
             nfails += 1
             labels = _label(mod, case, failure)
